@@ -29,7 +29,7 @@ func c10variants(idx int) (string, []grammar.Variant) {
 	spec := grammar.Specs[idx%nspec]
 	r := rng.New(c10.seed, rng.Str("C10"), uint64(idx))
 	v := grammar.Generate(spec, r, fmt.Sprintf("t%d", idx))
-	return spec.Name, grammar.IllFormed(v, true)
+	return spec.Name, grammar.IllFormed(v, true, r)
 }
 
 func c10run(idx int) run.Result {
@@ -97,7 +97,7 @@ func init() {
 	run.Register(&run.Prop{
 		ID: "C10", Level: "exploration",
 		Rule: func(tier string) string {
-			return "case = one well-formed vector of one grammar entry (every entry, several generated vectors each so that all option shapes occur) from which ALL ill-formed variants are derived systematically: each required position omitted (vector cut before it), each value position replaced by a null bulk, each numeric position replaced by non-numeric / fractional / overflowing tokens, each pair list cut to a dangling half; plus the complete table of SET exclusive-option combinations, repetitions and non-positive expiries. Each variant runs as [variant, ECHO token] on a fresh scripted connection with a recording handler. Oracle: zero handler calls, reply 1 is an error frame, reply 2 is the echo. distinct_nontrivial = distinct variant request encodings (every variant is ill-formed, hence non-trivial); counters class:* give variants per class"
+			return "case = one well-formed vector of one grammar entry (every entry, several generated vectors each so that all option shapes occur) from which ALL ill-formed variants are derived systematically: each required position omitted (vector cut before it), each value position replaced by a null bulk, each numeric position replaced by non-numeric / fractional / overflowing tokens (fixed boundary tokens plus six seeded random 20..25-digit numbers per position), each pair list cut to a dangling half; plus the complete table of SET exclusive-option combinations, repetitions and non-positive expiries. Each variant runs as [variant, ECHO token] on a fresh scripted connection with a recording handler. Oracle: zero handler calls, reply 1 is an error frame, reply 2 is the echo. distinct_nontrivial = distinct variant request encodings (every variant is ill-formed, hence non-trivial); counters class:* give variants per class"
 		},
 		Assumptions: []string{"what is ill-formed is decided by the independent grammar (Redis command reference): arity, numeric syntax, pair completeness, SET option exclusivity"},
 		Setup: func(tier string, seed uint64) int {
